@@ -1,4 +1,4 @@
-\* design run (thorough): all one-sided laws on names that change under lower(): alphabet { / A E-acute(upper) e-acute
+\* design run (thorough): all one-sided laws on names that change under lower(): alphabet { / A : E-acute(upper) e-acute
 \* I-dot-above i combining-dot }, all 8 conventions, |p| <= 3, |q| <= 2
 CONSTANTS
   Seps = {1, 2}
@@ -8,7 +8,7 @@ CONSTANTS
   LP = 3
   LQ = 2
   LR = 0
-  Ext = {1, 4, 7, 9, 10, 11, 12}
+  Ext = {1, 4, 7, 8, 9, 10, 11, 12}
 SPECIFICATION PathsSpec
 INVARIANT DesignU
 INVARIANT DesignB
